@@ -312,7 +312,12 @@ func PanicSite() string {
 			} else if i := strings.LastIndex(file, "/learn/"); i >= 0 {
 				file = file[i+1:]
 			}
-			return fmt.Sprintf("%s:%d", file, fr.Line)
+			fn := fr.Function
+			if i := strings.LastIndex(fn, "."); i >= 0 {
+				fn = fn[i+1:]
+			}
+			_ = file
+			return fmt.Sprintf("%s:%s", file, fn)
 		}
 		if !more {
 			break
